@@ -55,7 +55,7 @@ func prepDataVSF32(a Tensor, b interface{}, reuse Tensor) (dataA *storage.Header
 		dataReuse = reuse.hdr()
 	}
 
-	if a.RequiresIterator() || (reuse != nil && reuse.RequiresIterator()) {
+	if a.RequiresIterator() || (reuse != nil && (reuse.RequiresIterator() || !reuse.DataOrder().HasSameOrder(a.DataOrder()))) {
 		ait = a.Iterator()
 		if reuse != nil {
 			iit = reuse.Iterator()
@@ -162,6 +162,7 @@ func (e Float32Engine) FMAScalar(a Tensor, x interface{}, y Tensor) (retVal Tens
 	if useIter {
 		err = execution.MulIterIncrVSF32(dataTensor.Float32s(), scalar, dataReuse.Float32s(), ait, iit)
 		retVal = reuse
+		return // the flat kernel below is the other branch, not a second pass over the storage
 	}
 
 	execution.MulIncrVSF32(dataTensor.Float32s(), scalar, dataReuse.Float32s())
@@ -188,8 +189,14 @@ func (e Float32Engine) Add(a Tensor, b Tensor, opts ...FuncOpt) (retVal Tensor, 
 	var hdrA, hdrB, hdrReuse *storage.Header
 	var dataA, dataB, dataReuse []float32
 
-	if hdrA, hdrB, hdrReuse, _, _, _, _, _, err = prepDataVV(a, b, reuse); err != nil {
+	var useIter bool
+	if hdrA, hdrB, hdrReuse, _, _, _, useIter, _, err = prepDataVV(a, b, reuse); err != nil {
 		return nil, errors.Wrapf(err, "Float32Engine.Add")
+	}
+	if bd, ok := b.(DenseTensor); useIter || (ok && reuse != nil && bd == reuse) {
+		// operands or destination of different data orders or layouts, or a destination that is the second operand:
+		// the flat kernels below would pair the wrong elements (or read b after overwriting it)
+		return e.StdEng.Add(a, b, opts...)
 	}
 	dataA = hdrA.Float32s()
 	dataB = hdrB.Float32s()
